@@ -272,6 +272,54 @@ def paren_multiline(src):
     except SyntaxError: return None
     return out
 
+def operator_linebreak(src):
+    """inside parentheses / brackets, a physical line break after every comparison operator (`(a ==\n        b)`): legal there, a syntax error once the parentheses are gone"""
+    import io, tokenize
+    try: toks = list(tokenize.generate_tokens(io.StringIO(src).readline))
+    except (tokenize.TokenError, IndentationError, SyntaxError): return None
+    lines = src.splitlines(keepends=True); depth = 0; cuts = []
+    for t in toks:
+        if t.type == tokenize.OP:
+            if t.string in "([{": depth += 1
+            elif t.string in ")]}": depth -= 1
+            elif depth > 0 and t.string in ("==", "!=", "<", ">", "<=", ">="): cuts.append(t.end)
+    if not cuts: return None
+    for (ln, col) in sorted(cuts, reverse=True):
+        l = lines[ln - 1]
+        if not l[:col].isascii(): continue
+        ind = len(l) - len(l.lstrip(" "))
+        lines[ln - 1] = l[:col] + "\n" + " " * (ind + 8) + l[col:].lstrip(" ")
+    out = "".join(lines)
+    if out == src: return None
+    try: compile(out, "<layout>", "exec")
+    except SyntaxError: return None
+    return out
+
+def compare_multiline(src):
+    """every single-line comparison is put into parentheses of its own with a line break after each comparison operator: `not a == b` -> `not (a ==\n        b)`"""
+    try: t = ast.parse(src)
+    except SyntaxError: return None
+    lines = src.splitlines(keepends=True)
+    nodes = sorted((n for n in ast.walk(t) if isinstance(n, ast.Compare) and n.lineno == n.end_lineno and lines[n.lineno - 1].isascii()), key=lambda n: (n.lineno, n.col_offset, -n.end_col_offset))
+    done = []; edits = []
+    for n in nodes:
+        if any(d.lineno == n.lineno and d.col_offset <= n.col_offset and n.end_col_offset <= d.end_col_offset for d in done): continue      # inside one already taken
+        done.append(n)
+        seg = lines[n.lineno - 1][n.col_offset:n.end_col_offset]; ind = len(lines[n.lineno - 1]) - len(lines[n.lineno - 1].lstrip(" "))
+        # break after the operator that precedes each comparator
+        pieces = []; pos = n.col_offset
+        for c in n.comparators:
+            pieces.append(lines[n.lineno - 1][pos:c.col_offset].rstrip(" ")); pos = c.col_offset
+        pieces.append(lines[n.lineno - 1][pos:n.end_col_offset])
+        edits.append((n.lineno, n.col_offset, n.end_col_offset, "(" + ("\n" + " " * (ind + 8)).join(pieces) + ")"))
+    if not edits: return None
+    for ln, a, b, text in sorted(edits, reverse=True):
+        l = lines[ln - 1]; lines[ln - 1] = l[:a] + text + l[b:]
+    out = "".join(lines)
+    try: compile(out, "<layout>", "exec")
+    except SyntaxError: return None
+    return out
+
 def backslash_continued(src):
     """break the first long-enough simple assignment / expression line after its first ' = ' or '(' ... conservative: only `x = expr` lines"""
     lines = src.splitlines(keepends=True)
@@ -287,7 +335,7 @@ def backslash_continued(src):
 def form_feed(src):
     return "\x0c\n" + src if not src.startswith("from __future__") else None
 
-CALL_LAYOUTS = {"trailing-comma": trailing_comma, "exploded": exploded_calls, "exploded-comments": exploded_calls_with_comments, "semicolon": semicolon_joined, "backslash": backslash_continued, "formfeed": form_feed, "dataflow": dataflow_chain, "paren-multiline": paren_multiline}
+CALL_LAYOUTS = {"trailing-comma": trailing_comma, "exploded": exploded_calls, "exploded-comments": exploded_calls_with_comments, "semicolon": semicolon_joined, "backslash": backslash_continued, "formfeed": form_feed, "dataflow": dataflow_chain, "paren-multiline": paren_multiline, "operator-linebreak": operator_linebreak, "compare-multiline": compare_multiline}
 
 class _Hanging(cst.CSTTransformer):
     """hanging indent: break after the first argument only -> `f(a,\\n    b, c)`; the last line carries the closing parenthesis"""
@@ -377,6 +425,18 @@ def pair(src_a, src_b):
     if not ba.endswith("\n"): ba += "\n"
     out = head + ba + "\nVF_BETWEEN_SEEDS = 0\n" + bb
     try: compile(out, "<pair>", "exec")
+    except SyntaxError: return None
+    return out
+
+def local_duplicate_import(src):
+    """every module-level import of the seed is repeated, unused, inside a function of its own: the same import written twice in different scopes, one of them dead"""
+    try: t = ast.parse(src)
+    except SyntaxError: return None
+    imps = [ast.get_source_segment(src, n) for n in t.body if isinstance(n, (ast.Import, ast.ImportFrom)) and not (isinstance(n, ast.ImportFrom) and (n.module == "__future__" or any(a.name == "*" for a in n.names)))]
+    imps = [i for i in imps if i and "\n" not in i]
+    if not imps: return None
+    out = src + ("" if src.endswith("\n") else "\n") + "\ndef vf_dup_imports():\n" + "".join(f"    {i}\n" for i in imps) + "    return 1\n"
+    try: compile(out, "<dup>", "exec")
     except SyntaxError: return None
     return out
 
